@@ -191,6 +191,25 @@ class K(object):
 k = object.__new__(K)
 shared = [K.__dict__['__new__']]
 ''', [('inspect-attr', 'k.__new__'), ('inspect-attr', 'K.__new__')], {'fresh': True}),
+    # a wrappers.decorator method looked at through the class by one thread while another uses the instance
+    'S10-decorator-method-class-and-instance': ('''
+@wrappers.decorator
+def d(func, *args, opt=False, **kwargs): return func(*args, **kwargs)
+class A(object):
+    @d
+    def m(self, x, y=1): return x
+obj = A()
+shared = [A.__dict__['m'], obj]
+''', [('sigtools-attr', 'A.m'), ('inspect-attr', 'obj.m'), ('exec', 'obj.m(1)')]),
+    'S10b-wrapper-decorator-method-class-and-instance': ('''
+@wrappers.wrapper_decorator
+def d(func, *args, opt=False, **kwargs): return func(*args, **kwargs)
+class A(object):
+    @d
+    def m(self, x, y=1): return x
+obj = A()
+shared = [A.__dict__['m'], obj]
+''', [('inspect-attr', 'A.m'), ('sigtools-attr', 'obj.m'), ('sigtools-attr', 'A.m')]),
     'S7-three-threads-on-wraps': ('f = deco(inner)\nshared = [f]', [('sigtools', 'f'), ('inspect', 'f'), ('sigtools', 'f')]),
     'S7b-three-threads-mixed': ('''
 g = deco(inner)
@@ -265,6 +284,17 @@ def transient(g, initial):
     return None
 
 
+def lacks_attribute(o, initial, g):
+    for x, snap in zip(g['shared'], initial):
+        if x is o:
+            path0 = snap.get('f')
+            if not path0:
+                return False
+            have = w_fault._own_attrs(o)
+            return any(k in ('__wrapped__', '__signature__') and k not in have for k, _ in path0[1])
+    return False
+
+
 def predicted_wrong_answers(g, ops_spec):
     """Answers each mechanism would produce, computed sequentially by putting the
     shared object into the mechanism's transient state by hand."""
@@ -334,6 +364,17 @@ def solo_profile(g, ops_spec, initial):
             _locs.setdefault((code.co_filename, line), []).append(step)
             if transient(g, initial):
                 _win.add(step)
+                # the known finding is about the time it takes "to read the function's own signature": while the
+                # attributes are away nothing else of discovery may be running
+                # (a nested discovery of ANOTHER object, started from within that read, is part of it)
+                f = sys._getframe(1)
+                while f is not None:
+                    if f.f_code.co_name in BEYOND_OWN_SIGNATURE_READ and env.in_sigtools(f.f_code.co_filename):
+                        subject = f.f_locals.get('func')
+                        if any(subject is o for o in g['shared']) and lacks_attribute(subject, initial, g):
+                            WINDOW_EXTENT.append((f.f_code.co_name, os.path.basename(code.co_filename), line))
+                            break
+                    f = f.f_back
         SCHED.probe = probe
         res, steps, hung = SCHED.run([op], {})
         SCHED.probe = None
@@ -346,6 +387,9 @@ def solo_profile(g, ops_spec, initial):
 
 
 LOCATION_STEPS = {}
+# parts of discovery that have nothing to do with reading the inspected function's own signature
+BEYOND_OWN_SIGNATURE_READ = {'autoforwards_ast', 'forward_signatures', 'get_ast'}
+WINDOW_EXTENT = []
 
 
 def location_representatives(locs):
@@ -398,6 +442,14 @@ def explore(ctx, name, tier):
         ctx.count('C17.unstable_scenarios')
         ctx.inconclusive.append('scenario %s is not deterministic when run alone' % name)
         return
+    if WINDOW_EXTENT:
+        where = sorted(set(WINDOW_EXTENT))[:4]
+        ctx.violation('C17', 'ConcurrencyBoundary', 'attributes-away-beyond-own-signature-read',
+                      'while __wrapped__/__signature__ are removed from the shared object, discovery runs code that is not '
+                      'reading the function\'s own signature (%s): other threads see the transient state for that whole time' % (
+                          ', '.join('%s at %s:%d' % x for x in where)),
+                      {'scenario': name, 'where': [list(x) for x in where]}, dict(workload='sched', scenario=name, plan=[]))
+        del WINDOW_EXTENT[:]
     pred = predicted_wrong_answers(g, ops_spec)
     if shared_snapshot(g) != initial:
         ctx.inconclusive.append('scenario %s: computing predicted answers disturbed the shared objects' % name)
